@@ -15,7 +15,16 @@ package assets
 // anything else is the violation "unserialisable-accepted". After the whole sequence the file must be
 // the last stored configuration ("final:*"). Only what cannot be judged stays harness trouble (exit 2):
 // the child misbehaving, a fault that could not be injected/lifted, a store failing in a healthy
-// directory while file and memory are fine. (The partial setters are not
+// directory while file and memory are fine.
+//
+// "In effect in memory" is judged through every read accessor, not only GetClientConfPtr: after a
+// failed SetClientConf the child builds a reference singleton (fresh initAssets through AssetsSetDir)
+// from the configuration GetClientConfPtr shows and compares each exported Get* method (enumerated by
+// reflection), samples of the random pickers (membership) and IsDecoyInList probes ("rollback:<name>").
+//
+// Restart: after every failed or faulted store, fault lifted, the directory is loaded by a fresh
+// singleton; the file afterwards and the configuration then in effect must be the stored one or the
+// complete new one of that failed store ("reload:*", "reload-memory:*") — left-overs are never promoted. (The partial setters are not
 // required to roll back; what they leave in memory is taken as the new baseline.) Stray temporary
 // files are counted, not judged.
 
@@ -24,6 +33,7 @@ import (
 	"os"
 	"path/filepath"
 	"sort"
+	"strings"
 	"testing"
 
 	pb "github.com/refraction-networking/conjure/proto"
@@ -57,6 +67,31 @@ func c20LoadBlob(cache map[string]c20Loaded, obsDir, name string) (*pb.ClientCon
 	}
 	cache[name] = l
 	return l.m, l.raw, l.err
+}
+
+// c20ParseDisk turns a disk-state string of the child (absent | dir | f:<blob>) into the parsed file.
+// form is "" when the file parses the way the client's loader parses it (proto.Unmarshal including the
+// required-field check), else missing | dir | unparseable. harness != "" = the observation is unusable.
+func c20ParseDisk(cache map[string]c20Loaded, obsDir, state string) (m *pb.ClientConf, raw []byte, form, errText, harness string) {
+	switch {
+	case state == "absent":
+		return nil, nil, "missing", "", ""
+	case state == "dir":
+		return nil, nil, "dir", "", ""
+	case len(state) > 2 && state[:2] == "f:":
+		m, raw, perr := c20LoadBlob(cache, obsDir, state[2:])
+		if perr != nil && raw == nil {
+			return nil, nil, "", "", perr.Error()
+		}
+		if perr == nil && m != nil {
+			perr = proto.CheckInitialized(m)
+		}
+		if perr != nil || m == nil {
+			return nil, raw, "unparseable", fmt.Sprint(perr), ""
+		}
+		return m, raw, "", "", ""
+	}
+	return nil, nil, "", "", "cannot observe the file: " + state
 }
 
 func c20CheckFault(t vh.Fataler, rec *vh.Rec, root string, c c20Case) {
@@ -100,32 +135,53 @@ func c20CheckFault(t vh.Fataler, rec *vh.Rec, root string, c c20Case) {
 			t.Fatalf("harness problem: in-memory snapshot of store %d: %v", i, err)
 		}
 		// the file as the child saw it right after the call, before the fault was lifted
-		var gotDisk *pb.ClientConf
-		var raw []byte
-		diskForm, diskErr := "", ""
-		switch {
-		case o.Disk == "absent":
-			diskForm = "missing"
-		case o.Disk == "dir":
-			diskForm = "dir"
-		case len(o.Disk) > 2 && o.Disk[:2] == "f:":
-			var perr error
-			gotDisk, raw, perr = c20LoadBlob(cache, res.obsDir, o.Disk[2:])
-			if perr != nil && raw == nil {
-				t.Fatalf("harness problem: %v", perr)
+		memBefore := mem
+		gotDisk, raw, diskForm, diskErr, htrouble := c20ParseDisk(cache, res.obsDir, o.Disk)
+		if htrouble != "" {
+			t.Fatalf("harness problem: store %d: %s", i, htrouble)
+		}
+
+		// judgeReload: the fault is lifted and the directory was loaded the way a restarting client
+		// loads it. What that client then has in effect, and the file it leaves, must be the stored
+		// configuration — or, after a failed store, that store's complete new configuration — never
+		// anything else (a left-over temporary file of any age must not be promoted).
+		judgeReload := func(failedNew *pb.ClientConf) {
+			if v != nil || !o.Reload {
+				return
 			}
-			// "parses" = what the client's own loader (proto.Unmarshal in readConfigs) accepts, which
-			// includes the required-field check
-			if perr == nil && gotDisk != nil {
-				perr = proto.CheckInitialized(gotDisk)
+			classSet["reload-checked"] = true
+			faultName := op.Fault
+			if faultName == "" {
+				faultName = "none"
 			}
-			if perr != nil || gotDisk == nil {
-				gotDisk = nil
-				diskForm = "unparseable"
-				diskErr = fmt.Sprint(perr)
+			rDisk, rRaw, rForm, rErr, ht := c20ParseDisk(cache, res.obsDir, o.ReloadDisk)
+			if ht != "" {
+				t.Fatalf("harness problem: store %d, after reload: %s", i, ht)
 			}
-		default:
-			t.Fatalf("harness problem: cannot observe the file after store %d: %s", i, o.Disk)
+			allowed := func(m *pb.ClientConf) bool {
+				return m != nil && (proto.Equal(m, disk) || (failedNew != nil && proto.Equal(m, failedNew)))
+			}
+			if !allowed(rDisk) {
+				if rForm == "" {
+					rForm = c20Form(rRaw, disk, failedNew)
+				}
+				v = &viol{"reload:" + faultName + ":" + rForm, fmt.Sprintf("after store %d (%v, result %q) the fault was lifted and the directory loaded by a fresh client (AssetsSetDir on a new singleton, load error %q): the ClientConf file is then %s (%s) %s; stored configuration %s",
+					i, op, o.Err, o.ReloadErr, rForm, rErr, c20Brief(rDisk), c20Brief(disk))}
+				return
+			}
+			var rMem *pb.ClientConf
+			if o.ReloadMem != "" {
+				rMem, _, _ = c20LoadBlob(cache, res.obsDir, o.ReloadMem)
+			}
+			if o.ReloadErr != "" || !allowed(rMem) {
+				v = &viol{"reload-memory:" + faultName, fmt.Sprintf("after store %d (%v, result %q) a fresh client loading the directory (load error %q) has %s in effect; stored configuration %s",
+					i, op, o.Err, o.ReloadErr, c20Brief(rMem), c20Brief(disk))}
+				return
+			}
+			if !proto.Equal(rDisk, disk) {
+				classSet["reload-promoted-complete-new"] = true
+				disk = rDisk
+			}
 		}
 
 		if o.Err == "" {
@@ -151,6 +207,10 @@ func c20CheckFault(t vh.Fataler, rec *vh.Rec, root string, c c20Case) {
 				// whatever is in memory
 				classSet["unserialisable-accepted:file-untouched"] = true
 				mem = gotMem
+				judgeReload(nil)
+				if v != nil {
+					break
+				}
 				continue
 			case "vanish":
 				// the old file was moved away and is what the child looked at: nothing can be judged
@@ -180,6 +240,10 @@ func c20CheckFault(t vh.Fataler, rec *vh.Rec, root string, c c20Case) {
 				t.Fatalf("harness problem: model mismatch: after successful store %d (%v) memory holds %s, model %s", i, op, c20Brief(gotMem), c20Brief(want))
 			}
 			mem, disk = want, want
+			judgeReload(nil)
+			if v != nil {
+				break
+			}
 			continue
 		}
 
@@ -229,6 +293,28 @@ func c20CheckFault(t vh.Fataler, rec *vh.Rec, root string, c c20Case) {
 					i, op, o.Err, c20Brief(gotMem), c20Brief(mem))}
 				break
 			}
+			// GetClientConfPtr shows the previous configuration; so must every other read accessor: the
+			// child compared each with the same accessor of a fresh singleton loaded from exactly that
+			// configuration
+			if o.GettersSkipped != "" {
+				t.Fatalf("harness problem: store %d: accessors not compared: %s", i, o.GettersSkipped)
+			}
+			if o.GettersChecked == 0 {
+				t.Fatalf("harness problem: store %d: the child compared no accessor", i)
+			}
+			classSet["rollback-accessors-checked"] = true
+			for _, n := range o.GettersNotes {
+				classSet["accessors: "+n] = true
+			}
+			if len(o.GettersDiffer) > 0 {
+				name := o.GettersDiffer[0]
+				if sp := strings.IndexByte(name, ' '); sp > 0 {
+					name = name[:sp]
+				}
+				v = &viol{"rollback:" + name, fmt.Sprintf("SetClientConf #%d (%v) failed with %q; GetClientConfPtr shows the previous configuration %s, but %d of %d read accessors do not answer like a fresh singleton loaded from it: %s",
+					i, op, o.Err, c20Brief(mem), len(o.GettersDiffer), o.GettersChecked, strings.Join(o.GettersDiffer, "; "))}
+				break
+			}
 		} else {
 			// not required to roll back: whatever is in memory is the baseline of the next store
 			switch {
@@ -240,6 +326,14 @@ func c20CheckFault(t vh.Fataler, rec *vh.Rec, root string, c c20Case) {
 				classSet["partial-setter:memory-other"] = true
 			}
 			mem = gotMem
+		}
+		var failedNew *pb.ClientConf
+		if op.Fault != "marshal" {
+			failedNew = c20Norm(c20Model(memBefore, i, op))
+		}
+		judgeReload(failedNew)
+		if v != nil {
+			break
 		}
 	}
 
@@ -270,6 +364,11 @@ func c20CheckFault(t vh.Fataler, rec *vh.Rec, root string, c c20Case) {
 		classes = append(classes, k)
 	}
 	sort.Strings(classes)
+	if c.XDev && res.xdev {
+		classes = append(classes, "xdev-tmpdir")
+	} else if c.XDev {
+		classes = append(classes, "xdev-unavailable")
+	}
 	rec.Case(fired > 0, vh.Digest(c), c, classes...)
 	if v != nil {
 		rec.Violation(t, v.key, c, "%s; sequence=%v init=%dKiB", v.msg, c.Ops, c.InitKB)
@@ -289,13 +388,13 @@ func c20StrayNote(rec *vh.Rec) {
 
 var c20FaultRequired = []string{
 	"fault-fired:marshal", "fault-fired:vanish", "fault-fired:fsize", "fault-fired:occupied",
-	"rollback-checked", "disk-still-previous", "fault-fired-multiMB",
+	"rollback-checked", "disk-still-previous", "fault-fired-multiMB", "rollback-accessors-checked", "reload-checked",
 }
 
 // Every fault × operation × size combination, once on a small and once on a multi-megabyte stored
 // configuration, each followed by healthy stores.
 func TestVerif_C20_faultgrid(t *testing.T) {
-	rec := vh.NewRec("C20", "faultgrid", "enumeration: every fault {marshal (SetClientConf only), vanish, occupied, fsize with limits 0/1/300/4096/100000/1500000} x every setter x payload {small, 2 MiB} x previously stored configuration {small, 2 MiB} (thorough: 5 more limits, sizes small/1/2/5 MiB); sequence = [faulted store, healthy SetGeneration, the same store healthy]; run in a re-executed child that snapshots file and in-memory configuration after every call. Non-trivial = a fault fired (the setter returned an error); distinct = distinct sequence")
+	rec := vh.NewRec("C20", "faultgrid", "enumeration: every fault {marshal (SetClientConf only), vanish, occupied, fsize with limits 0/1/300/4096/100000/1500000} x every setter x payload {small, 2 MiB} x previously stored configuration {small, 2 MiB} (thorough: 5 more limits, sizes small/1/2/5 MiB); sequence = [faulted store, healthy SetGeneration, the same store healthy]; run in a re-executed child that snapshots file and in-memory configuration after every call, compares every read accessor with a fresh singleton after a failed SetClientConf, and reloads the directory with a fresh singleton after every failed or faulted store. Non-trivial = a fault fired (the setter returned an error); distinct = distinct sequence")
 	defer rec.Flush()
 	rec.Require(c20FaultRequired...)
 	root := t.TempDir()
@@ -353,6 +452,7 @@ func c20GenFault(rt *rapid.T) c20Case {
 	if rapid.IntRange(0, 3).Draw(rt, "bigInitP") == 0 {
 		c.InitKB = rapid.SampledFrom(bigSizes).Draw(rt, "initKB")
 	}
+	c.XDev = rapid.Bool().Draw(rt, "xdev")
 	bigLeft := rapid.IntRange(0, 2).Draw(rt, "bigOps")
 	n := rapid.IntRange(1, 14).Draw(rt, "n")
 	for i := 0; i < n; i++ {
@@ -379,7 +479,7 @@ func c20GenFault(rt *rapid.T) c20Case {
 // Random sequences mixing healthy and faulted stores: failed partial setters followed by successful
 // ones, repeated failures, failures on top of multi-megabyte configurations.
 func TestVerif_C20_faults(t *testing.T) {
-	rec := vh.NewRec("C20", "faults", "rapid draws sequences of 1-14 stores, each healthy or with one fault (marshal / vanish / occupied / fsize with a drawn limit), payloads small or 1-3 MiB; executed in a re-executed child that snapshots file and in-memory configuration after every call; the parent follows a model (previous file content; in-memory configuration) and compares with proto.Equal after every call. Non-trivial = at least one fault fired; distinct = distinct sequence")
+	rec := vh.NewRec("C20", "faults", "rapid draws sequences of 1-14 stores, each healthy or with one fault (marshal / vanish / occupied / fsize with a drawn limit), payloads small or 1-3 MiB; executed in a re-executed child that snapshots file and in-memory configuration after every call; the parent follows a model (previous file content; in-memory configuration) and compares with proto.Equal after every call; after a failed SetClientConf every read accessor (all exported Get* methods by reflection, the random pickers by membership, IsDecoyInList by probes) must answer like a fresh singleton loaded from the previous configuration; after every failed or faulted store the directory is loaded by a fresh singleton and file and loaded configuration must be the stored (or that store's complete new) configuration; half of the cases with TMPDIR on another file system. Non-trivial = at least one fault fired; distinct = distinct sequence")
 	defer rec.Flush()
 	rec.Require(c20FaultRequired...)
 	root := t.TempDir()
